@@ -2,7 +2,6 @@ use std::{
     cmp::Ordering,
     fmt::{self, Display, Formatter},
     hash::{Hash, Hasher},
-    str::FromStr,
 };
 
 use proc_macro2::Span;
@@ -10,7 +9,9 @@ use quote::ToTokens;
 use syn::{spanned::Spanned, Path, Type};
 
 #[derive(Debug, Clone)]
-pub(crate) struct HashType(String, Span);
+/// A type (or a path) that is compared by its spelling. The tokens themselves are kept as well: a
+/// `$crate` of a `macro_rules` body and the invisible group around a fragment do not survive printing.
+pub(crate) struct HashType(String, Span, proc_macro2::TokenStream);
 
 impl PartialEq for HashType {
     #[inline]
@@ -59,7 +60,7 @@ impl From<Type> for HashType {
 impl From<&Type> for HashType {
     #[inline]
     fn from(value: &Type) -> Self {
-        Self(value.into_token_stream().to_string(), value.span())
+        Self(value.into_token_stream().to_string(), value.span(), value.into_token_stream())
     }
 }
 
@@ -73,7 +74,7 @@ impl From<Path> for HashType {
 impl From<&Path> for HashType {
     #[inline]
     fn from(value: &Path) -> Self {
-        Self(value.into_token_stream().to_string(), value.span())
+        Self(value.into_token_stream().to_string(), value.span(), value.into_token_stream())
     }
 }
 
@@ -81,7 +82,7 @@ impl From<&Path> for HashType {
 impl HashType {
     #[inline]
     pub(crate) fn to_type(&self) -> Type {
-        syn::parse_str(self.0.as_str()).unwrap()
+        syn::parse2(self.2.clone()).unwrap()
     }
 
     #[inline]
@@ -93,8 +94,6 @@ impl HashType {
 impl ToTokens for HashType {
     #[inline]
     fn to_tokens(&self, token_stream: &mut proc_macro2::TokenStream) {
-        let ty = proc_macro2::TokenStream::from_str(self.0.as_str()).unwrap();
-
-        token_stream.extend(ty);
+        token_stream.extend(self.2.clone());
     }
 }
